@@ -1,7 +1,389 @@
-//! `frag.*` and `impl.frag.*` operations (stub; filled in by the owner of this family).
+//! `frag.*` operations: etherparse::defrag (IpDefragBuf, IpDefragPool) driven by whole histories.
+//! See lean/EpModel/Driver/Frag.lean for the line format.
 #![allow(unused_imports, dead_code)]
 use crate::util::*;
+use etherparse::defrag::{IpDefragBuf, IpDefragError, IpDefragPayloadVec, IpDefragPool};
+use etherparse::{IpFragOffset, IpNumber, SlicedPacket};
+use std::collections::VecDeque;
 
-pub fn run(_op: &str, _a: &[&str]) -> Option<String> {
+fn show_err(e: &IpDefragError) -> String {
+    use IpDefragError::*;
+    match e {
+        UnalignedFragmentPayloadLen {
+            offset,
+            payload_len,
+        } => format!(
+            "err(UnalignedFragmentPayloadLen(offset={},payload_len={}))",
+            offset.value(),
+            payload_len
+        ),
+        SegmentTooBig {
+            offset,
+            payload_len,
+            max,
+        } => format!(
+            "err(SegmentTooBig(offset={},payload_len={},max={}))",
+            offset.value(),
+            payload_len,
+            max
+        ),
+        ConflictingEnd {
+            previous_end,
+            conflicting_end,
+        } => format!(
+            "err(ConflictingEnd(previous_end={},conflicting_end={}))",
+            previous_end, conflicting_end
+        ),
+        AllocationFailure { len } => format!("err(AllocationFailure(len={}))", len),
+    }
+}
+
+fn arg_bool(s: &str) -> Option<bool> {
+    match s {
+        "1" => Some(true),
+        "0" => Some(false),
+        _ => None,
+    }
+}
+
+// ---------------------------------------------------------------------------------------------
+// frag.buf
+
+fn run_buf(proto: &str, stale: &str, adds: &str) -> Option<String> {
+    let proto: u8 = num(proto)?;
+    // a recycled vector: `new` clears it, the capacity keeps the old bytes
+    let stale = hex(stale)?;
+    let mut parsed = Vec::new();
+    if adds != "-" {
+        for a in adds.split(';') {
+            let f: Vec<&str> = a.split(':').collect();
+            if f.len() != 3 {
+                return None;
+            }
+            let fo: u16 = num(f[0])?;
+            let fo = IpFragOffset::try_new(fo).ok()?;
+            parsed.push((fo, arg_bool(f[1])?, hex(f[2])?));
+        }
+    }
+    let mut buf = IpDefragBuf::new(IpNumber(proto), stale, Vec::new());
+    let mut outs = Vec::new();
+    for (fo, mf, p) in parsed.iter() {
+        match buf.add(*fo, *mf, p) {
+            Ok(()) => outs.push("ok".to_string()),
+            Err(e) => outs.push(show_err(&e)),
+        }
+    }
+    // only bytes inside sections are read (everything else may be uninitialised memory)
+    let secs: Vec<String> = buf
+        .sections()
+        .iter()
+        .map(|s| {
+            format!(
+                "({},{}):{}",
+                s.start,
+                s.end,
+                to_hex(&buf.data()[usize::from(s.start)..usize::from(s.end)])
+            )
+        })
+        .collect();
+    Some(format!(
+        "{}|proto={},len={},sections=[{}],end={},complete={}",
+        outs.join(";"),
+        buf.ip_number().0,
+        buf.data().len(),
+        secs.join(","),
+        match buf.end() {
+            None => "none".to_string(),
+            Some(e) => format!("some({})", e),
+        },
+        buf.is_complete()
+    ))
+}
+
+// ---------------------------------------------------------------------------------------------
+// frag.pool
+
+const EXT_HEADER_NUMBERS: [u8; 8] = [0, 43, 44, 51, 60, 135, 139, 140];
+const TRANSPORT_NUMBERS: [u8; 5] = [1, 2, 6, 17, 58];
+
+#[derive(Clone)]
+struct Key {
+    ver: u8,
+    src: Vec<u8>,
+    dst: Vec<u8>,
+    ident: u32,
+    proto: u8,
+    vlans: Vec<u16>,
+    chan: u32,
+}
+
+fn parse_key(s: &str) -> Option<Key> {
+    let f: Vec<&str> = s.split(',').collect();
+    if f.len() != 7 {
+        return None;
+    }
+    let ver: u8 = num(f[0])?;
+    if ver != 4 && ver != 6 {
+        return None;
+    }
+    let src = hex(f[1])?;
+    let dst = hex(f[2])?;
+    let alen = if ver == 4 { 4 } else { 16 };
+    if src.len() != alen || dst.len() != alen {
+        return None;
+    }
+    let ident: u32 = num(f[3])?;
+    if ver == 4 && ident > 0xffff {
+        return None;
+    }
+    let proto: u8 = num(f[4])?;
+    if EXT_HEADER_NUMBERS.contains(&proto) {
+        return None;
+    }
+    let mut vlans = Vec::new();
+    if f[5] != "-" {
+        for v in f[5].split('+') {
+            let v: u16 = num(v)?;
+            if v >= 4096 {
+                return None;
+            }
+            vlans.push(v);
+        }
+        if vlans.len() > 3 {
+            return None;
+        }
+    }
+    let chan: u32 = num(f[6])?;
+    Some(Key {
+        ver,
+        src,
+        dst,
+        ident,
+        proto,
+        vlans,
+        chan,
+    })
+}
+
+enum Item {
+    /// packet bytes, starts at ethernet?, timestamp, channel
+    Packet(Vec<u8>, bool, u64, u32),
+    Ret,
+    Retain(u64),
+}
+
+/// ip packet: `frag` = Some((fragment offset, more fragments)) → IPv4 flags / IPv6 fragment header
+fn ip_packet(k: &Key, frag: Option<(u16, bool)>, payload: &[u8]) -> Vec<u8> {
+    let mut p = Vec::new();
+    if k.ver == 4 {
+        let total = 20 + payload.len();
+        let (fo, mf) = frag.unwrap_or((0, false));
+        let ff: u16 = (if mf { 0x2000 } else { 0 }) | fo;
+        p.extend_from_slice(&[0x45, 0]);
+        p.extend_from_slice(&(total as u16).to_be_bytes());
+        p.extend_from_slice(&(k.ident as u16).to_be_bytes());
+        p.extend_from_slice(&ff.to_be_bytes());
+        p.extend_from_slice(&[64, k.proto, 0, 0]);
+        p.extend_from_slice(&k.src);
+        p.extend_from_slice(&k.dst);
+    } else {
+        let plen = payload.len() + if frag.is_some() { 8 } else { 0 };
+        p.extend_from_slice(&[0x60, 0, 0, 0]);
+        p.extend_from_slice(&(plen as u16).to_be_bytes());
+        p.extend_from_slice(&[if frag.is_some() { 44 } else { k.proto }, 64]);
+        p.extend_from_slice(&k.src);
+        p.extend_from_slice(&k.dst);
+        if let Some((fo, mf)) = frag {
+            let ff: u16 = (fo << 3) | (if mf { 1 } else { 0 });
+            p.extend_from_slice(&[k.proto, 0]);
+            p.extend_from_slice(&ff.to_be_bytes());
+            p.extend_from_slice(&k.ident.to_be_bytes());
+        }
+    }
+    p.extend_from_slice(payload);
+    p
+}
+
+/// wraps the ip packet into Ethernet II + VLAN tags; packets without VLAN tags on odd channels are
+/// handed over without link layer (SlicedPacket::from_ip)
+fn frame(k: &Key, ip: Vec<u8>) -> (Vec<u8>, bool) {
+    if k.vlans.is_empty() && k.chan % 2 == 1 {
+        return (ip, false);
+    }
+    let ip_et: u16 = if k.ver == 4 { 0x0800 } else { 0x86dd };
+    let mut p = vec![2, 0, 0, 0, 0, 1, 2, 0, 0, 0, 0, 2];
+    for v in k.vlans.iter() {
+        p.extend_from_slice(&0x8100u16.to_be_bytes());
+        p.extend_from_slice(&v.to_be_bytes());
+    }
+    p.extend_from_slice(&ip_et.to_be_bytes());
+    p.extend_from_slice(&ip);
+    (p, true)
+}
+
+fn parse_item(s: &str) -> Option<Item> {
+    let f: Vec<&str> = s.split(':').collect();
+    match f.as_slice() {
+        ["d", key, ts, fo, mf, h] => {
+            let k = parse_key(key)?;
+            let ts: u64 = num(ts)?;
+            let fo: u16 = num(fo)?;
+            let mf = arg_bool(mf)?;
+            let b = hex(h)?;
+            let max_payload = if k.ver == 4 { 65515 } else { 65527 };
+            let fragmenting = mf || fo != 0;
+            if fo > 8191
+                || b.len() > max_payload
+                || (!fragmenting && TRANSPORT_NUMBERS.contains(&k.proto))
+            {
+                return None;
+            }
+            let (p, eth) = frame(&k, ip_packet(&k, Some((fo, mf)), &b));
+            Some(Item::Packet(p, eth, ts, k.chan))
+        }
+        ["u", key, ts, h] => {
+            let k = parse_key(key)?;
+            let ts: u64 = num(ts)?;
+            let b = hex(h)?;
+            let max_payload = if k.ver == 4 { 65515 } else { 65535 };
+            if b.len() > max_payload || TRANSPORT_NUMBERS.contains(&k.proto) {
+                return None;
+            }
+            let (p, eth) = frame(&k, ip_packet(&k, None, &b));
+            Some(Item::Packet(p, eth, ts, k.chan))
+        }
+        ["n"] => {
+            // ARP request in an Ethernet II frame
+            let mut p = vec![0xff, 0xff, 0xff, 0xff, 0xff, 0xff, 2, 0, 0, 0, 0, 2, 0x08, 0x06];
+            p.extend_from_slice(&[0, 1, 8, 0, 6, 4, 0, 1]);
+            p.extend_from_slice(&[2, 0, 0, 0, 0, 2, 10, 0, 0, 1]);
+            p.extend_from_slice(&[0, 0, 0, 0, 0, 0, 10, 0, 0, 2]);
+            Some(Item::Packet(p, true, 0, 0))
+        }
+        ["r"] => Some(Item::Ret),
+        ["t", m] => Some(Item::Retain(num(m)?)),
+        _ => None,
+    }
+}
+
+/// element strings of the list that starts at the beginning of `s` (`[a, b, …]`), split at depth 1
+fn top_elements(s: &str) -> Option<Vec<String>> {
+    let mut depth = 0usize;
+    let mut cur = String::new();
+    let mut out = Vec::new();
+    for c in s.chars() {
+        match c {
+            '[' | '{' | '(' => {
+                depth += 1;
+                if depth > 1 {
+                    cur.push(c);
+                }
+            }
+            ']' | '}' | ')' => {
+                if depth == 0 {
+                    return None;
+                }
+                depth -= 1;
+                if depth == 0 {
+                    if !cur.trim().is_empty() {
+                        out.push(cur.trim().to_string());
+                    }
+                    return Some(out);
+                }
+                cur.push(c);
+            }
+            ',' if depth == 1 => {
+                out.push(cur.trim().to_string());
+                cur = String::new();
+            }
+            _ => {
+                if depth == 0 {
+                    return None;
+                }
+                cur.push(c);
+            }
+        }
+    }
     None
+}
+
+/// the pool has no accessors for its private fields: the counts are read off the derived Debug text
+fn pool_counts(pool: &IpDefragPool<u64, u32>) -> Option<String> {
+    let d = format!("{:?}", pool);
+    let a = d.find("active: ")?;
+    let fd = d.find(", finished_data_bufs: ")?;
+    let fs = d.find(", finished_section_bufs: ")?;
+    let active = top_elements(&d[a + "active: ".len()..fd])?.len();
+    let dl = top_elements(&d[fd + ", finished_data_bufs: ".len()..fs])?.len();
+    let sl = top_elements(&d[fs + ", finished_section_bufs: ".len()..])?.len();
+    Some(format!("active={},fdata={},fsec={}", active, dl, sl))
+}
+
+fn active_count(pool: &IpDefragPool<u64, u32>) -> Option<usize> {
+    let d = format!("{:?}", pool);
+    let a = d.find("active: ")?;
+    let fd = d.find(", finished_data_bufs: ")?;
+    Some(top_elements(&d[a + "active: ".len()..fd])?.len())
+}
+
+fn run_pool(history: &str) -> Option<String> {
+    let mut items = Vec::new();
+    for s in history.split(';') {
+        items.push(parse_item(s)?);
+    }
+    let mut pool = IpDefragPool::<u64, u32>::new();
+    let mut outstanding: VecDeque<IpDefragPayloadVec> = VecDeque::new();
+    let mut outs = Vec::new();
+    for it in items.iter() {
+        match it {
+            Item::Packet(bytes, eth, ts, chan) => {
+                let sliced = if *eth {
+                    SlicedPacket::from_ethernet(bytes)
+                } else {
+                    SlicedPacket::from_ip(bytes)
+                };
+                let sliced = match sliced {
+                    Ok(s) => s,
+                    Err(e) => {
+                        outs.push(format!("slice-error({:?})", e));
+                        continue;
+                    }
+                };
+                match pool.process_sliced_packet(&sliced, *ts, *chan) {
+                    Ok(None) => outs.push("none".to_string()),
+                    Ok(Some(p)) => {
+                        outs.push(format!(
+                            "ok({},{:?},{})",
+                            p.ip_number.0,
+                            p.len_source,
+                            to_hex(&p.payload)
+                        ));
+                        outstanding.push_back(p);
+                    }
+                    Err(e) => outs.push(show_err(&e)),
+                }
+            }
+            Item::Ret => match outstanding.pop_front() {
+                Some(p) => {
+                    pool.return_buf(p);
+                    outs.push("ret(1)".to_string());
+                }
+                None => outs.push("ret(0)".to_string()),
+            },
+            Item::Retain(min_ts) => {
+                let m = *min_ts;
+                pool.retain(|t| *t >= m);
+                outs.push(format!("retained({})", active_count(&pool)?));
+            }
+        }
+    }
+    Some(format!("{}|{}", outs.join(";"), pool_counts(&pool)?))
+}
+
+pub fn run(op: &str, a: &[&str]) -> Option<String> {
+    match (op, a) {
+        ("frag.buf", [proto, stale, adds]) => run_buf(proto, stale, adds),
+        ("frag.pool", [history]) => run_pool(history),
+        _ => None,
+    }
 }
